@@ -18,7 +18,7 @@ PRES = ["flip", "roll", "sort", "argsort", "softmax", "log_softmax"]
 DATA_MOVING = {"id", "get_at", "set_at", "flip", "roll", "sort", "argsort", "argmax", "argmin", "max", "min", "maximum", "minimum", "where", "less", "equal",
                "any", "all", "count_nonzero", "logical_and", "logical_or", "less_equal", "greater", "greater_equal", "not_equal", "solve_axes", "solve_shapes", "matches"}
 ADAPTERS = ["red_sum_scale", "red_max", "el_axpy", "el_mul", "red_times2", "red_times3", "el_plus1", "el_plus5"]
-FAMILIES = ["id", "id", "reduce", "reduce", "elem", "elem", "dot", "dot3", "get_at", "get_at_multi", "update_at", "argfind", "pres", "idcat", "ell", "ellred", "solve", "allscalar", "cseblock"]
+FAMILIES = ["id", "id", "reduce", "reduce", "elem", "elem", "dot", "dot3", "get_at", "get_at_multi", "update_at", "argfind", "pres", "idcat", "ell", "ellred", "solve", "allscalar", "cseblock", "nested"]
 
 
 def mkdata(rng, shape, kind="int"):
@@ -154,6 +154,42 @@ def gen_call(rng, fam=None, names=NAMES):
         if style == "reduce":
             return _d(rng.choice(["sum", "max", "min", "prod"]), f"{y} [({x} {inner})]" if rng.random() < 0.5 else f"({x} [{inner}]) {y}", [mkdata(rng, (sy, sx * pr) if True else None, kind)], {x: sx}, axes=ax)
         return _d(rng.choice(["add", "multiply", "maximum"]), f"({x} {inner}) {y}, {y} -> {y} ({x} {inner})", [mkdata(rng, (sx * pr, sy), kind), mkdata(rng, (sy,), kind)], {x: sx}, axes=ax)
+    if fam == "nested":
+        # nested compositions "(a (b c)) d" with a random subset of the sizes given: rearranged, re-nested or reduced
+        ax = axes(rng, rng.randint(3, 6), sizes=(1, 2, 2, 3), names=names)
+
+        def build(items, depth):
+            out, i = [], 0
+            while i < len(items):
+                if depth < 2 and rng.random() < 0.45 and len(items) - i >= 2:
+                    j = rng.randint(i + 2, min(len(items), i + 4))
+                    out.append(build(items[i:j], depth + 1))
+                    i = j
+                else:
+                    out.append(items[i])
+                    i += 1
+            return out
+
+        def text(t):
+            return " ".join("(" + text(e) + ")" if isinstance(e, list) else e[0] for e in t)
+
+        def flat(t):
+            return [a for e in t for a in (flat(e) if isinstance(e, list) else [e])]
+
+        tree = build(ax, 0)
+        shp = tuple(int(np.prod([sz for _, sz in flat(e)])) if isinstance(e, list) else e[1] for e in tree)
+        kw = {n: sz for n, sz in ax if rng.random() < 0.5}
+        mode = rng.choice(["perm", "renest", "reduce"])
+        if mode == "perm":
+            t2 = tree[:]
+            rng.shuffle(t2)
+            if rng.random() < 0.5 and len(t2) > 1:
+                t2 = [t2]
+            return _d("id", f"{text(tree)} -> {text(t2)}", [mkdata(rng, shp, kind)], kw, axes=ax)
+        if mode == "renest":
+            return _d("id", f"{text(tree)} -> {text(build(ax, 0))}", [mkdata(rng, shp, kind)], kw, axes=ax)
+        k = rng.choice(ax)[0]
+        return _d(rng.choice(["sum", "max", "min", "prod"]), text(tree).replace(k, f"[{k}]", 1), [mkdata(rng, shp, kind)], kw, axes=ax)
     if fam == "idcat":
         ax = axes(rng, rng.randint(1, 3), names=names)
         k = rng.randrange(len(ax))
